@@ -8,7 +8,7 @@ from ..astutil import attr_writes
 from ..cfg import Node, cfg_of, node_calls, walk_own
 from ..closed import find_roles, resolver, state_member
 from ..flow import may_occurred_before, occurred_before
-from ..guard import fmt_table, truth_table
+from ..guard import walk, fmt_table, truth_table
 from ..report import Ctx
 from ..src import Func, norm, own_nodes
 from ..sym import Ref
@@ -215,6 +215,14 @@ def client_binding(ctx: Ctx, roles) -> None:
             ok = bool(ctor_nodes) and all("stored" in ev.get(n, frozenset()) for n in ctor_nodes)
             others = [fn.qualname for fn in ctx.repo.funcs_in("client") for st, tgt, val in attr_writes(fn, attr) if fn is not start and fn.name != "__init__"]
             ctx.ob("C07.R1", start, f"the remembered callback self.{attr} is overwritten with this call's argument on every path (also with None)", ok and not others, f"self.{attr} keeps the callback of an earlier session when this one is started without one: it would be called again for a session it was not given for (other writers: {others})")
+            # ... but only by a call that really starts a session: a refused call ("already connected") must leave the
+            # live session's callback alone
+            stores = [n for n in g.reachable() if n.kind == "stmt" and isinstance(n.ast, ast.Assign) and any(isinstance(t, ast.Attribute) and t.attr == attr and norm(t.value) == "self" for t in n.ast.targets)]
+            refusing = []
+            for sn in stores:
+                after = walk(g, {}, lambda n: None, start=sn, blocked=set(ctor_nodes))
+                refusing += [n for n in after if n.kind == "stmt" and isinstance(n.ast, ast.Raise)]
+            ctx.ob("C07.R1", start, f"self.{attr} is replaced only once the call can no longer be refused", not refusing, f"after the store the call can still raise at L{[n.lineno for n in refusing][:2]} without having created a connection: the callback of the session that is alive has been replaced by one whose connection never existed")
         else:
             ctx.ob("C07.R1", hook, "the callback invoked by the hook is this session's", False, f"callee {norm(f)} is neither a bound parameter nor a per-session attribute")
 
